@@ -171,7 +171,7 @@ func processRule(ruleId string, chainOffset uint8, dataFilePath string, ctxt *pr
 	regex := runAssemble(dataFilePath)
 
 	rulePrefix := ruleId[:3]
-	matches, err := utils.GlobInDir(ctxt.RootContext().RulesDir(), fmt.Sprintf("*-%s-*", rulePrefix))
+	matches, err := utils.GlobInDir(ctxt.RootContext().RulesDir(), fmt.Sprintf("*-%s-*.conf", rulePrefix))
 	if err != nil {
 		logger.Fatal().Err(err).Msgf("Failed to find rule file for rule id %s", ruleId)
 	}
